@@ -207,7 +207,7 @@ Definition parse_string (v : jv) : option bytes :=
   | _ => None
   end.
 
-(* verifyIssuer / verifySubject with required = true *)
+(* verifyIssuer / verifySubject with required = true (an empty claim counts as missing) *)
 Definition verify_str (k : bytes) (c : claims) (cmp : bytes) : bool :=
   match parse_string (cget k c) with
   | None => false
@@ -341,12 +341,17 @@ Section Oidc.
             if negb am then OInvalid RKey
             else if negb ver then OInvalid RSignature
             else if negb (validate (parser_validator cfg) now c) then OInvalid RClaims
-            else if negb (existsb (fun i => validate (issuer_validator i) now c)
+            (* since 8b29193 both ContainsFunc closures return false for an empty entry
+               (jwt.WithIssuer("") / jwt.WithSubject("") would switch the check off); the
+               main issuer is never empty (constructor), as coded an empty one matches nothing *)
+            else if negb (existsb (fun i => if beqb i [] then false
+                                            else validate (issuer_validator i) now c)
                                   (main_issuer cfg :: issuer_aliases cfg))
                  then OInvalid RIssuer
             else if match subjects cfg with
                     | [] => false
-                    | _ => negb (existsb (fun s => validate (subject_validator s) now c)
+                    | _ => negb (existsb (fun s => if beqb s [] then false
+                                                   else validate (subject_validator s) now c)
                                          (subjects cfg))
                     end
                  then OInvalid RSubject
@@ -395,10 +400,8 @@ Record validity := {
   vy_nbf : bool;         (* nbf absent or nbf <= now *)
   vy_iat : bool;         (* iat absent or iat <= now *)
   vy_aud : bool;         (* aud names the configured audience *)
-  vy_iss : bool;         (* iss is the main issuer or an alias *)
-  vy_iss_wild : bool;    (* the alias list contains the empty string *)
-  vy_sub : bool;         (* no subjects configured, or sub is one of them *)
-  vy_sub_wild : bool;    (* the subject list contains the empty string *)
+  vy_iss : bool;         (* iss is non-empty and is the main issuer or an alias *)
+  vy_sub : bool;         (* no subjects configured, or sub is non-empty and one of them *)
   vy_sub_wf : bool       (* sub absent or a string *)
 }.
 
@@ -424,7 +427,7 @@ Definition aud_ok (cfg : oidc_cfg) (c : claims) : bool :=
 
 Definition iss_ok (cfg : oidc_cfg) (c : claims) : bool :=
   match cget k_iss c with
-  | JStr s => bmem s (main_issuer cfg :: issuer_aliases cfg)
+  | JStr s => negb (beqb s []) && bmem s (main_issuer cfg :: issuer_aliases cfg)
   | _ => false
   end.
 
@@ -432,7 +435,7 @@ Definition sub_ok (cfg : oidc_cfg) (c : claims) : bool :=
   match subjects cfg with
   | [] => true
   | _ => match cget k_sub c with
-         | JStr s => bmem s (subjects cfg)
+         | JStr s => negb (beqb s []) && bmem s (subjects cfg)
          | _ => false
          end
   end.
@@ -449,8 +452,7 @@ Definition validity_of_token (cfg : oidc_cfg) (now : Z) (bearer : bool) (t : tok
   | TokMalformed =>
     {| vy_bearer := bearer; vy_wellformed := false; vy_alg := false; vy_key := false;
        vy_sig := false; vy_exp := false; vy_nbf := false; vy_iat := false; vy_aud := false;
-       vy_iss := false; vy_iss_wild := bmem [] (issuer_aliases cfg);
-       vy_sub := false; vy_sub_wild := bmem [] (subjects cfg); vy_sub_wf := false |}
+       vy_iss := false; vy_sub := false; vy_sub_wf := false |}
   | TokParsed a k c =>
     {| vy_bearer := bearer; vy_wellformed := true;
        vy_alg := match a with AlgRS256 => true | _ => false end;
@@ -461,9 +463,7 @@ Definition validity_of_token (cfg : oidc_cfg) (now : Z) (bearer : bool) (t : tok
        vy_iat := time_ok k_iat now c;
        vy_aud := aud_ok cfg c;
        vy_iss := iss_ok cfg c;
-       vy_iss_wild := bmem [] (issuer_aliases cfg);
        vy_sub := sub_ok cfg c;
-       vy_sub_wild := bmem [] (subjects cfg);
        vy_sub_wf := sub_wf c |}
   end.
 
@@ -481,8 +481,7 @@ End OidcValidity.
 Definition decide (v : validity) : bool :=
   vy_bearer v && vy_wellformed v && vy_alg v && vy_key v && vy_sig v
   && vy_exp v && vy_nbf v && vy_iat v && vy_aud v
-  && (vy_iss v || vy_iss_wild v)
-  && (vy_sub v || vy_sub_wild v)
+  && vy_iss v && vy_sub v
   && vy_sub_wf v.
 
 (* the property text, literally *)
@@ -493,16 +492,6 @@ Definition property_literal (v : validity) : bool :=
 (* the two conditions the code adds to the property text (it is stricter there) *)
 Definition extra_ok (v : validity) : bool := vy_nbf v && vy_sub_wf v.
 
-(* configuration hypothesis under which the code is not laxer than the property text *)
-Definition no_empty_entries (cfg : oidc_cfg) : bool :=
-  negb (bmem [] (issuer_aliases cfg)) && negb (bmem [] (subjects cfg)).
-
 (* what NewRemoteOidcAuthenticator guarantees *)
 Definition cfg_wf (cfg : oidc_cfg) : bool :=
   negb (beqb (main_issuer cfg) []) && negb (beqb (audience cfg) []).
-
-(* finding flags, computed from the record *)
-Definition flag_empty_alias (v : validity) : bool :=
-  decide v && negb (vy_iss v).
-Definition flag_empty_subject (v : validity) : bool :=
-  decide v && negb (vy_sub v).
